@@ -141,3 +141,50 @@ def scenario(seed):
         return (seed, probs, {"rule": target.unique_id, "attr": attr, "levels": used, "file_spelling": spelling})
     finally:
         shutil.rmtree(d, ignore_errors=True)
+
+
+def alias_case(seed):
+    """two -c files; the first is YAML in which several rules share ONE mapping (an anchor and its aliases), the second names one of
+    them: only that rule follows the second file, the others keep what the first file says (merging must not write into the earlier
+    file's shared mapping)"""
+    import importlib
+
+    import yaml
+
+    from vsg import config, rule_list, severity
+
+    vf = importlib.import_module("vsg.vhdlFile.vhdlFile")
+    r = random.Random(seed)
+    d = tempfile.mkdtemp(prefix="c12a_")
+    probs = []
+    try:
+        oFile = vf.vhdlFile(["entity e is", "end entity e;"], sFilename="a.vhd")
+        probe = rule_list.rule_list(oFile, severity.create_list({}))
+        ids = [o.unique_id for o in probe.rules if not o.deprecated and o.fixable]
+        a, b, c = r.sample(ids, 3)
+        shared = {"fixable": False, "severity": "Warning", "indent_size": 3}
+        first = {"rule": {a: shared, b: shared, c: shared}}  # PyYAML writes the shared object as &id001 / *id001
+        second = {"rule": {a: {"fixable": True, "severity": "Error", "indent_size": 5}}}
+        p1, p2 = os.path.join(d, "first.yaml"), os.path.join(d, "second.yaml")
+        yaml.safe_dump(first, open(p1, "w"))
+        if "*id" not in open(p1).read():
+            return (seed, ["the scenario's YAML has no alias"], {})
+        yaml.safe_dump(second, open(p2, "w"))
+        cla = vf.command_line_args()
+        cla.style = None
+        cla.configuration = [p1, p2]
+        cla.junit = None
+        oConfig = config.New(cla)
+        rl = rule_list.rule_list(oFile, oConfig.severity_list)
+        rl.configure(oConfig)
+        state = {o.unique_id: (o.fixable, o.severity.name, o.indent_size) for o in rl.rules if o.unique_id in (a, b, c)}
+        if state[a] != (True, "Error", 5):
+            probs.append("%s is named by the later file but is configured %r" % (a, state[a]))
+        for x in (b, c):
+            if state[x] != (False, "Warning", 3):
+                probs.append("%s is only named by the first file (through a YAML alias shared with %s) but is configured %r after the later file changed %s" % (x, a, state[x], a))
+        return (seed, probs[:2], {"rules": [a, b, c]})
+    except Exception as e:  # noqa
+        return (seed, ["scenario raised %s: %s" % (type(e).__name__, e)], {})
+    finally:
+        shutil.rmtree(d, ignore_errors=True)
